@@ -705,6 +705,8 @@ func checkQueuesStructure(partition *PartitionConfig) error {
 		} else {
 			// make sure root is a parent
 			partition.Queues[0].Parent = true
+			// the partition loaders compare the name case sensitive: normalise an accepted "ROOT"
+			partition.Queues[0].Name = RootQueue
 		}
 	}
 
